@@ -140,7 +140,7 @@ def tie(tier, seed, replay):
         sv = spec(c)
         dist[c["name"]] = dist.get(c["name"], 0) + 1
         if c["vals"]:
-            seen.add((c["name"], c["p"], c["kind"], tuple(c["vals"])))
+            seen.add((c["name"], tuple(c["p"]), c["kind"], tuple(c["vals"])))
         if iv != sv:
             mism.append(dict(case=c, impl=iv, model=mv, spec=sv, kind="impl_violates_spec", known=known_class(c, iv),
                              what="aggregator %s on %s (p=%s/%s): implementation %s, definition %s" % (c["name"], c["vals"], c["p"][0], c["p"][1], iv, sv)))
